@@ -46,9 +46,9 @@ func runC01(c *Ctx) {
 	}
 
 	// strata: the boundary grid (walked completely), large cores, then the random cases
-	nLarge := int64(1200)
+	nLarge := int64(6000)
 	if c.Thorough() {
-		nLarge = 40000
+		nLarge = 200000
 	}
 	c.Cases(gridSize+nLarge+n, func(idx int64, r *Rng) {
 		var sc *StepCase
@@ -69,6 +69,18 @@ func runC01(c *Ctx) {
 		if p, msg := try(func() { s, w, err = newStepSim(sc, sc.Core, sc.PC) }); p || err != nil {
 			c.Violate("C01:setup:"+panicSite(msg), fmt.Sprintf("building the simulator failed: %v %s", err, msg), sc.describe())
 			return
+		}
+		if m <= 4096 && r.Chance(1, 8) {
+			// the same simulator after a first life: a step, Reset and a new spawn must leave nothing behind
+			if p, msg := try(func() {
+				s.RunCycle()
+				s.Reset()
+				err = s.SpawnWarrior(0, 0)
+			}); p || err != nil {
+				c.Violate("C01:reuse:"+panicSite(msg), fmt.Sprintf("step, Reset, respawn failed: %v %s", err, msg), sc.describe())
+				return
+			}
+			c.Inc("cases_on_a_reset_simulator")
 		}
 		ref := mars.NewBattle(m, sc.P, 1000, sc.R, sc.W)
 		ref.Add(mars.WarriorCode{Code: sc.Core, Start: sc.PC})
